@@ -13,9 +13,10 @@ use std::str::FromStr;
 pub const PAT_TOKENS: [&str; 12] = ["a", "b", ".", "/", "+", "(", "[", "*", "?", "\\*", "\\?", "\\\\"];
 pub const PATH_CHARS: [&str; 10] = ["a", "b", ".", "/", "+", "(", "[", "*", "?", "\\"];
 /// second glob alphabet: the remaining regex metacharacters and a non-ASCII character
-pub const PAT_TOKENS2: [&str; 12] = ["a", ")", "]", "{", "}", "^", "$", "|", "é", "-", "*", "?"];
-pub const PATH_CHARS2: [&str; 10] = ["a", ")", "]", "{", "}", "^", "$", "|", "é", "-"];
-pub const LOOKUP_PATTERNS: [&str; 5] = ["*", "a/*", "a/b", "*.c", "?"];
+pub const PAT_TOKENS2: [&str; 13] = ["a", ")", "]", "{", "}", "^", "$", "|", "é", "-", "*", "?", "A"];
+pub const PATH_CHARS2: [&str; 11] = ["a", ")", "]", "{", "}", "^", "$", "|", "é", "-", "A"];
+/// (the last two are THREE patterns each: on one line with a tab and a double blank between them, and on three lines)
+pub const LOOKUP_PATTERNS: [&str; 7] = ["*", "a/*", "a/b", "*.c", "?", "zz\ta/b  *.c", "zz\n a/b\n *.c"];
 pub const LOOKUP_PATHS: [&str; 6] = ["a/b", "a/c.c", "x", "x.c", "a/b/c", "zz"];
 const FORMAT: &str = "Format: https://www.debian.org/doc/packaging-manuals/copyright-format/1.0/\n";
 
@@ -41,7 +42,9 @@ pub enum C17Case {
     NotMachineReadable(usize),
 }
 
-const NOT_MR: [&str; 5] = ["", "\nFormat: x\n", "Files: *\nLicense: L\n", "This is free text.\n", " Format: x\n"];
+const NOT_MR: [&str; 10] = ["", "\nFormat: x\n", "Files: *\nLicense: L\n", "This is free text.\n", " Format: x\n",
+    // near misses of the Format field: a longer and a shorter name, no colon, another letter case... and the field second
+    "Format-Specification: x\n\nFiles: *\nCopyright: c\nLicense: MIT\n", "Formats: x\n", "Forma: x\n", "Format x\n", "Upstream-Name: x\nFormat: x\n"];
 /// licence kinds of a Files paragraph: name L0, name L1, name L0 + inline text, name L2 (no stand-alone paragraph of that name is ever generated)
 const LIC_KINDS: usize = 4;
 
@@ -163,7 +166,8 @@ fn check_lookup(files: &[(usize, usize, bool, usize)], licenses: &[usize], path:
     let text = render_lookup(files, licenses, layout);
     let p = LOOKUP_PATHS[path];
     // reference
-    let want_idx = files.iter().enumerate().filter(|(_, (p1, p2, _, _))| gmatch(LOOKUP_PATTERNS[*p1], p) || (*p2 > 0 && gmatch(LOOKUP_PATTERNS[*p2 - 1], p))).map(|(i, _)| i).last();
+    let any = |pats: &str, p: &str| pats.split_whitespace().any(|x| gmatch(x, p));
+    let want_idx = files.iter().enumerate().filter(|(_, (p1, p2, _, _))| any(LOOKUP_PATTERNS[*p1], p) || (*p2 > 0 && any(LOOKUP_PATTERNS[*p2 - 1], p))).map(|(i, _)| i).last();
     let standalone = |name: &str| -> Option<License> {
         licenses.iter().enumerate().map(|(j, n)| standalone_para(j, *n).1).find(|l| l.name() == Some(name))
     };
@@ -240,6 +244,9 @@ fn files_cfgs() -> Vec<(usize, usize, bool, usize)> {
     let mut v = vec![];
     for p1 in 0..LOOKUP_PATTERNS.len() {
         for (p2, own) in [(0, false), (4, false), (4, true), (3, false)] {
+            if p1 >= 5 && p2 != 0 {
+                continue; // the three-pattern fields stand alone
+            }
             for lic in 0..LIC_KINDS {
                 v.push((p1, p2, own, lic));
             }
@@ -283,7 +290,7 @@ impl Prop for C17 {
         "exploration"
     }
     fn rule(&self, _t: Tier) -> String {
-        "(a) globs: every pattern of 1..3 tokens (thorough 4) over {a b . / + ( [ * ? \\* \\? \\\\} x every path of 0..2 characters (thorough 3; 2 for 4-token patterns) over {a b . / + ( [ * ? \\}, and every pattern of 1..2 tokens (thorough 3) over {a ) ] { } ^ $ | é - * ?} x every path of 0..2 (thorough 3) characters over the same characters without * ?, through FilesParagraph::matches of both readers against a backtracking matcher written from the statement; (b) lookup: every copyright file (plain; header carrying a licence with text / a licence name and comment; stand-alone licence paragraphs before or between the Files paragraphs; no final newline; a comment line in front of every paragraph - these six layouts with up to 1 (thorough 2) Files paragraphs) of 0..2 Files paragraphs (thorough: a third paragraph from 8 representative configurations) x (1-2 patterns from 5, second one on the same or its own line) x 4 licence kinds, with 0..2 stand-alone licence paragraphs (names L0/L1 in every order, with text or name only, and the several-word name 'L0 with exception' alone, before and after L0) x 6 paths, through find_files / find_license_for_file / find_license_by_name / iter_* of both readers against 'last match wins; own licence text else first stand-alone of that name'; (c) texts not starting with Format; all cases distinct; non-trivial = all".into()
+        "(a) globs: every pattern of 1..3 tokens (thorough 4) over {a b . / + ( [ * ? \\* \\? \\\\} x every path of 0..2 characters (thorough 3; 2 for 4-token patterns) over {a b . / + ( [ * ? \\}, and every pattern of 1..2 tokens (thorough 3) over {a ) ] { } ^ $ | é - * ? A} x every path of 0..2 (thorough 3) characters over the same characters without * ?, through FilesParagraph::matches of both readers against a backtracking matcher written from the statement; (b) lookup: every copyright file (plain; header carrying a licence with text / a licence name and comment; stand-alone licence paragraphs before or between the Files paragraphs; no final newline; a comment line in front of every paragraph - these six layouts with up to 1 (thorough 2) Files paragraphs) of 0..2 Files paragraphs (thorough: a third paragraph from 8 representative configurations) x (1-2 patterns from 5, second one on the same or its own line; or three patterns, on one line separated by a tab and a double blank, or on three lines) x 4 licence kinds, with 0..2 stand-alone licence paragraphs (names L0/L1 in every order, with text or name only, and the several-word name 'L0 with exception' alone, before and after L0) x 6 paths, through find_files / find_license_for_file / find_license_by_name / iter_* of both readers against 'last match wins; own licence text else first stand-alone of that name'; every printable ASCII character and a three- and four-byte one as a literal, under '?' and next to '*' (also against its other letter case); (c) texts not starting with a Format field (incl. near misses of the field name), also through the file readers; all cases distinct; non-trivial = all".into()
     }
     fn bounds(&self, t: Tier) -> Value {
         json!({"pattern_tokens": PAT_TOKENS, "path_chars": PATH_CHARS, "pattern_tokens_2": PAT_TOKENS2, "path_chars_2": PATH_CHARS2, "max_pattern_tokens_2": t.pick(2, 3), "layouts": LAYOUTS, "max_pattern_tokens": t.pick(3, 4), "max_path_len": t.pick(2, 3), "lookup_patterns": LOOKUP_PATTERNS, "lookup_paths": LOOKUP_PATHS, "max_files_paragraphs": t.pick(2, 3)})
@@ -317,6 +324,28 @@ impl Prop for C17 {
         if shard == ps.n_shards() {
             for i in 0..NOT_MR.len() {
                 f(&C17Case::NotMachineReadable(i));
+            }
+            // a looked-up path may hold any character: line breaks and NUL under '*' and '?'
+            for (pattern, path) in [("*", "a\nb"), ("?", "\n"), ("a*b", "a\n\nb"), ("a?b", "a\nb"), ("*", "\u{0}"), ("a?", "a\r"), ("*.c", "x\n.c")] {
+                f(&C17Case::Glob { pattern: pattern.to_string(), path: path.to_string() });
+            }
+            // every printable ASCII character (and a three- and a four-byte one) as a literal of a pattern, under '?', and
+            // between a literal and '*'
+            for c in (0x21u8..0x7f).map(|b| b as char).chain(['\u{20ac}', '\u{1f600}']) {
+                if matches!(c, '*' | '?' | '\\') {
+                    continue;
+                }
+                for pattern in [c.to_string(), "?".to_string(), format!("a{}*", c), format!("*{}", c)] {
+                    let mut paths: Vec<String> = vec![];
+                    for path in [c.to_string(), "a".to_string(), format!("a{}b", c), String::new(), c.to_ascii_uppercase().to_string(), c.to_ascii_lowercase().to_string()] {
+                        if !paths.contains(&path) && !(pattern == "?" && c != '!' && paths.len() >= 4) {
+                            paths.push(path);
+                        }
+                    }
+                    for path in paths {
+                        f(&C17Case::Glob { pattern: pattern.clone(), path });
+                    }
+                }
             }
             return;
         }
@@ -384,6 +413,14 @@ impl Prop for C17 {
                 if !matches!(a, Some(ll::Error::NotMachineReadable)) || !matches!(b, Some(ll::Error::NotMachineReadable)) {
                     out.push(viol("refuses-not-machine-readable", format!("lossless reader on {:?}: from_str {:?}, from_str_relaxed {:?}; expected the not-machine-readable error", t, a.map(|e| e.to_string()), b.map(|e| e.to_string()))));
                 }
+                // the same text handed over as a file
+                crate::props::c02::with_file(t, |path| {
+                    let fa = ll::Copyright::from_file(path).err();
+                    let fb = ll::Copyright::from_file_relaxed(path).err();
+                    if !matches!(fa, Some(ll::Error::NotMachineReadable)) || !matches!(fb, Some(ll::Error::NotMachineReadable)) {
+                        out.push(viol("refuses-not-machine-readable", format!("lossless file readers on {:?}: from_file {:?}, from_file_relaxed {:?}; expected the not-machine-readable error", t, fa.map(|e| e.to_string()), fb.map(|e| e.to_string()))));
+                    }
+                });
                 match ly::Copyright::from_str(t) {
                     Ok(_) => out.push(viol("refuses-not-machine-readable", format!("lossy reader accepted {:?}", t))),
                     Err(e) if !e.to_lowercase().contains("machine readable") => out.push(viol("refuses-not-machine-readable", format!("lossy reader on {:?}: error {:?} does not say 'not machine readable'", t, e))),
